@@ -301,7 +301,9 @@ Theorem C12_source_cs_read : forall rf rp fo po k sx m h, Forall byte sx ->
           forall k' s', exists f1, forall g, (f1 <= g)%nat -> exists fin2,
             callC prog_env g prog_sbdf_cs_destroy [VCell (List.length h) 0] (inb fin) k' s' h' = OReturn (VInt 0) fin2 /\
             inb fin2 = inb fin /\ Imp.lookup cells_var (vars fin2) = Some (VHeap (h ++ nones (S (S nb)))))
-     \/ (st < 0 /\ Imp.lookup "*out" (vars fin) = Some VUndef /\ exists j, Imp.lookup cells_var (vars fin) = Some (VHeap (h ++ nones j)))).
+     \/ (st < 0 /\ Imp.lookup "*out" (vars fin) = Some VUndef /\ exists j, Imp.lookup cells_var (vars fin) = Some (VHeap (h ++ nones j)))) /\
+    (* without allocation failures the call succeeds whenever the model's readers get through marker, values and a zero count *)
+    (k < 0 -> (exists s1 va s2 s3, sec_expect SBDF_COLUMNSLICE_SECTIONID sx = Ok (tt, s1) /\ Va.va_read false None s1 = Ok (va, s2) /\ read_int32 false s2 = Ok (0, s3)) -> st = SBDF_OK).
 Proof. exact cs_read_source. Qed.
 Print Assumptions C12_source_cs_read.
 
